@@ -9,6 +9,8 @@ echo "== demo with change:"; /venv/bin/python demo_$id.py >/dev/null 2>&1; echo 
 git stash -q; echo "== demo without change:"; /venv/bin/python demo_$id.py >/dev/null 2>&1; echo "exit=$?"; git stash pop -q
 cd /verif
 for c in ${@:-$id}; do
-  echo "== ./check $c quick against the change:"
-  PM_REPO=$d PMVERIF_EVIDENCE_DIR=/tmp/seed/ev timeout 1200 ./check $c quick 2>&1 | grep -v "^  File\|Recursion\|^    \|Exception ignored\|^Traceback\|KNOWN" | cut -c1-400 | tail -4
+  for seed in 1 2; do
+  echo "== ./check $c quick against the change (VERIF_SEED=$seed):"
+  VERIF_SEED=$seed PM_REPO=$d PMVERIF_EVIDENCE_DIR=/tmp/seed/ev timeout 1200 ./check $c quick 2>&1 | grep -v "^  File\|Recursion\|^    \|Exception ignored\|^Traceback\|KNOWN" | cut -c1-400 | tail -3
+  done
 done
